@@ -6,6 +6,7 @@
 # monitors on the implementation's own observations, (5) decides.
 import json, os, re, sys
 from vcheck import *
+import monitors as M
 
 CHECKS = {}
 
@@ -513,3 +514,285 @@ def check_C08(ctx):
     ctx.assumptions = ["'to within one rune': tolerance = widest of filler, refiller, tip frames",
                        "math.Round on the float64 quotient may differ from exact rounding by one cell only when width*current > 2^53"]
     fill_check(ctx, c08_monitor, 2500, 200000, c08_project, FILL_DEPS | {"Props/C08.v"}, kinds="F")
+
+
+# ---------------------------------------------------------------- frames family (container level)
+def split_traces(path):
+    """cases.txt of the frames family -> list of dicts(k, header lines, script lines, trace lines)"""
+    out, cur = [], None
+    for l in read_lines(path):
+        if l.startswith("case "):
+            cur = {"k": int(l.split()[1]), "hdr": [l], "trace": [], "cfg": l.split()}
+            out.append(cur)
+        elif cur is None:
+            continue
+        elif l.startswith("bar "):
+            cur["hdr"].append(l)
+        elif l.startswith("t "):
+            cur["trace"].append(l)
+    return out
+
+
+def script_of(case):
+    """reconstruct the script (s lines) of a scenario from the client events of its trace"""
+    s = []
+    for l in case["trace"]:
+        f = l.split()
+        k = f[2]
+        if k == "CL_ADD":
+            s.append("s add %s" % f[3][1:])
+        elif k == "CL_OP":
+            op = {"Incr": "incr", "SetTotal": "settotal", "Abort": "abort"}[f[4]]
+            s.append("s %s %s %s" % (op, f[3][1:], " ".join(f[5:])))
+        elif k == "CL_PRIO":
+            s.append("s prio %s %s %s" % (f[3][1:], f[4], f[5]))
+        elif k == "CL_WRITE":
+            s.append("s write %s %s" % (f[3], f[5]))
+        elif k == "CL_TICK":
+            s.append("s tick")
+        elif k == "CL_DELAYEND":
+            s.append("s delayend")
+        elif k == "CL_CANCEL":
+            s.append("s cancel")
+        elif k == "CL_WAIT":
+            s.append("s wait")
+    return s
+
+
+def frames_of(case):
+    """parsed OUT events: list of (seq, cuu, [items]) with items as tuples"""
+    fr = []
+    for l in case["trace"]:
+        f = l.split()
+        if f[2] != "OUT":
+            continue
+        cuu, items = 0, []
+        for tok in f[3:]:
+            if tok.startswith("cuu="):
+                cuu = int(tok[4:])
+            else:
+                items.append(tuple(tok.split(":")))
+        fr.append((int(f[1]), cuu, items))
+    return fr
+
+
+def frames_runs(ctx, n_quick, n_thorough, fam="frames"):
+    runs = []
+    for sc in corpus_scripts(ctx.prop, fam):
+        for rep in range(3 if ctx.tier == "quick" else 10):
+            runs.append(ctx.run_family(fam, 0, extra=sc, tag=".corpus%d." % rep + os.path.basename(sc)))
+    if ctx.replay:
+        rp = json.load(open(ctx.replay))
+        if "script" in rp:
+            sc = write_script(ctx, "replay.txt", rp["script"])
+            runs.append(ctx.run_family(fam, 0, extra=sc, tag=".replay"))
+            return runs
+    if ctx.tier == "quick":
+        runs.append(ctx.run_family(fam, n_quick))
+    else:
+        for i in range(8):
+            runs.append(ctx.run_family(fam, n_thorough // 8, seed=ctx.seed * 1000 + i))
+    return runs
+
+
+def frames_verdicts(run):
+    v = {}
+    for l in read_lines(os.path.join(run["dir"], "model.txt")):
+        f = l.split(" ", 2)
+        v[int(f[0])] = (f[1], f[2] if len(f) > 2 else "")
+    return v
+
+
+def reject_kind(detail):
+    m = re.search(r"sub=(\w+)", detail)
+    if m:
+        return m.group(1)
+    m = re.search(r"line=\[t \d+ (\w+)", detail)
+    return m.group(1) if m else "?"
+
+
+def frames_check(ctx, relevant_kinds, monitor, n_quick, n_thorough, deps, nontrivial=lambda case, frames: len(frames) >= 2):
+    """relevant_kinds: kinds of rejected event that concern this property; monitor(case, frames) ->
+    (what, signature) or None is evaluated on the implementation's own trace"""
+    if not common_setup(ctx, deps):
+        return
+    found = False
+    sigs = set()
+    for run in frames_runs(ctx, n_quick, n_thorough):
+        cases = split_traces(os.path.join(run["dir"], "cases.txt"))
+        verdicts = frames_verdicts(run)
+        if run["rc"] != 0:
+            what = "implementation run failed (panic, hang or livelock): " + run["log"][-1500:]
+            sig = "frames-run-failed"
+            m = re.search(r"hang: ([\w-]+)", run["log"])
+            if "panic" in run["log"]:
+                sig = "panic"
+            elif m:
+                sig = "hang-" + m.group(1)
+            last = cases[-1] if cases else {"hdr": [], "trace": []}
+            if sig not in sigs:
+                sigs.add(sig)
+                ctx.add_violation(what, sig, {"family": "frames", "run_seed": run["seed"], "n": run["n"],
+                                              "script": last["hdr"] + script_of(last) + ["end"], "log": run["log"][-4000:]})
+            found = True
+        for c in cases:
+            fr = frames_of(c)
+            ctx.cov["evaluations"] += 1
+            if c["k"] in verdicts and verdicts[c["k"]][0] == "ACCEPT":
+                ctx.cov["traces_validated_against_impl"] += 1
+            if nontrivial(c, fr):
+                ctx.distinct((tuple(c["cfg"][2:]), tuple(script_of(c))))
+            if c["k"] < 1 and run["n"] > 0:
+                ctx.sample({"scenario": c["hdr"] + script_of(c), "frames": [" ".join(":".join(i) for i in f[2]) for f in fr][:6]})
+            mon = monitor(c, fr) if monitor else None
+            if mon and mon[1] not in sigs:
+                sigs.add(mon[1])
+                ctx.add_violation(mon[0], mon[1], {"family": "frames", "run_seed": run["seed"], "n": run["n"], "k": c["k"],
+                                                   "script": c["hdr"] + script_of(c) + ["end"], "trace_tail": c["trace"][-60:]})
+                found = True
+            v = verdicts.get(c["k"])
+            if v and v[0] != "ACCEPT" and not mon:
+                kind = reject_kind(v[1]) if v[0] == "REJECT" else v[0]
+                if kind in relevant_kinds or v[0] in ("HANG", "LATEBAD"):
+                    sig = "trace-rejected-at-" + kind
+                    if sig not in sigs:
+                        sigs.add(sig)
+                        ctx.add_violation("the implementation's event trace is not accepted by the model (correspondence broken) and "
+                                          "no monitor of this property fails on it: " + v[1][:600], sig,
+                                          {"family": "frames", "run_seed": run["seed"], "n": run["n"], "k": c["k"],
+                                           "script": c["hdr"] + script_of(c) + ["end"], "model": v[1],
+                                           "theorem": "correspondence frames-family (Container.step accepts the trace)"},
+                                          found_input=False)
+                    found = True
+    report_broken_obligations(ctx, found)
+
+
+CONT_DEPS = {"Base.v", "BaseProofs.v", "BarState.v", "BarStateProofs.v", "Container.v", "ContainerProofs.v"}
+
+
+def c05_monitor(case, frames):
+    """every displayed bar exactly once per frame; never vanishes and comes back"""
+    clipped = M.any_clipped(case)
+    seen_before = set()
+    absent_since = {}
+    for seq, cuu, items in frames:
+        ids = [int(i[1]) for i in items if i[0] == "r"]
+        if len(set(ids)) != len(ids):
+            return ("a bar appears twice in the frame written at event %d: %s" % (seq, ids), "bar-twice-in-frame")
+        if clipped:
+            continue   # rows that do not fit the height are clipped: presence is not required (DESIGN 7a)
+        for b in ids:
+            if b in absent_since:
+                return ("bar %d was absent from the frame at event %d and is back at event %d" % (b, absent_since[b], seq),
+                        "bar-vanishes-and-returns")
+        for b in seen_before:
+            if b not in ids and b not in absent_since:
+                absent_since[b] = seq
+        seen_before |= set(ids)
+    # a bar whose Add returned before a cycle began and that is not queued must be in that cycle's frame
+    add_ret, queued = {}, set()
+    cyc_begin = None
+    for l in case["trace"]:
+        f = l.split()
+        if f[2] == "CT_ADD" and f[4] != "after=-1":
+            queued.add(int(f[3][1:]))
+        elif f[2] == "RET_ADD" and f[4] == "1":
+            add_ret[int(f[3][1:])] = int(f[1])
+        elif f[2] == "CT_RENDERBEGIN":
+            cyc_begin = int(f[1])
+        elif f[2] == "OUT" and cyc_begin is not None and not clipped:
+            ids = set(int(t.split(":")[1]) for t in f[3:] if t.startswith("r:"))
+            for b, s_ret in add_ret.items():
+                if s_ret < cyc_begin and b not in queued and b not in seen_gone(case, b, cyc_begin) and b not in ids:
+                    return ("bar %d was added (event %d) before the cycle at event %d began but is not in its frame" % (b, s_ret, cyc_begin),
+                            "added-bar-missing-from-frame")
+    return None
+
+
+def seen_gone(case, b, upto):
+    """{b} if the trace shows bar b leaving the display (flushed with shutdown>=1) before event upto"""
+    for l in case["trace"]:
+        f = l.split()
+        if int(f[1]) >= upto:
+            break
+        if f[2] == "CT_FLUSHBAR" and int(f[3][1:]) == b and int(f[4]) >= 1:
+            return {b}
+    return set()
+
+
+@check
+def check_C05(ctx):
+    ctx.cov["rule"] = ("scenario = seeded script for a sequential client (adds, increments, completions, aborts with/without drop, "
+                       "priority changes, writes, ticks, delay, cancel) on a container with 1-5 (thorough 1-12) bars, queue length "
+                       "below/at/above the bar count, pop mode, removal, queued bars, extender rows, width-synchronised markers; "
+                       "non-trivial = at least 2 frames; distinct = (configuration, script)")
+    ctx.assumptions = ["height clipping: when the rows do not fit, the bottom-most are drawn (C05 is stated for frames that fit)",
+                       "generated scenarios stay out of the C17 known-finding region (late / second successors)"]
+    frames_check(ctx, {"CT_FLUSHBAR", "HM_PUSH", "HM_POP", "OUT_ROWS", "OUT_UNEXPECTED", "CT_FRAME", "NOTIFY", "HM_SYNC",
+                       "HM_ITERREQ", "CT_ADD", "HM_STATE", "HM_END"},
+                 c05_monitor, 150, 4000, CONT_DEPS | {"Props/C05.v"})
+
+
+import monitors as M
+
+FRAME_RULE = ("scenario = seeded script for a sequential client (adds, increments, completions, aborts with/without drop, "
+              "priority changes, writes, ticks, delay, cancel) on a container with 1-5 (thorough 1-12) bars, queue length "
+              "below/at/above the bar count, auto (injected ticks) or manual refresh, pop mode, removal, queued bars, extender "
+              "rows, width-synchronised markers; every hook event, client call/return and output write is logged and replayed "
+              "by Container.step; non-trivial = at least 2 frames; distinct = (configuration, script)")
+
+
+@check
+def check_C06(ctx):
+    ctx.cov["rule"] = FRAME_RULE
+    ctx.assumptions = ["order among equal priorities is unspecified (container/heap): the monitor checks non-increasing pop priorities",
+                       "the frame after a lazy change is unspecified"]
+    frames_check(ctx, {"HM_POP", "HM_FIX", "CT_ADD", "OUT_ORDER", "CT_FLUSHBAR"}, M.c06_monitor, 200, 6000, CONT_DEPS | {"Props/C06.v"})
+
+
+@check
+def check_C17(ctx):
+    ctx.cov["rule"] = FRAME_RULE + "; scenarios with queued bars only count as non-trivial"
+    ctx.assumptions = ["one successor per predecessor, created while the predecessor has not been flushed in its second terminal "
+                       "frame; the other histories are the known finding (directed witnesses)"]
+    frames_check(ctx, {"CT_FLUSHBAR", "HM_PUSH", "OUT_ROWS", "CT_ADD", "HM_POP"}, M.c17_monitor, 300, 6000, CONT_DEPS | {"Props/C17.v"},
+                 nontrivial=lambda case, frames: any("after=" in l and "after=-1" not in l for l in case["trace"]) and len(frames) >= 2)
+    c17_directed(ctx)
+
+
+@check
+def check_C18(ctx):
+    ctx.cov["rule"] = FRAME_RULE + "; pop-mode scenarios with at least one popped bar count as non-trivial"
+    ctx.assumptions = ["user priorities above MinInt32 + number of bars", "rows fit the height (non-terminal output: height = width)"]
+    frames_check(ctx, {"CT_FLUSHBAR", "CT_FRAME", "OUT_ROWS", "OUT_CUU", "OUT_ORDER", "HM_PUSH", "HM_POP"}, M.c18_monitor, 300, 6000,
+                 CONT_DEPS | {"Props/C18.v"},
+                 nontrivial=lambda case, frames: case["cfg"][5] == "1" and any(" CT_FLUSHBAR " in l and l.split()[4] == "2" for l in case["trace"]))
+
+
+@check
+def check_C03(ctx):
+    ctx.cov["rule"] = FRAME_RULE
+    ctx.assumptions = ["refreshing container = auto refresh; in manual mode only 'no output after Wait' is checked (the library "
+                       "renders only when asked)"]
+    frames_check(ctx, {"OUT_CONTENT", "OUT_ROWS", "BAR_RENDER", "FINAL", "CT_FLUSHBAR", "HM_STATE", "OUT_UNEXPECTED", "RET_GET"},
+                 M.c03_monitor, 200, 6000, CONT_DEPS | {"Props/C03.v"})
+
+
+@check
+def check_C13(ctx):
+    ctx.cov["rule"] = FRAME_RULE + "; scenarios with at least one accepted Write count as non-trivial"
+    ctx.assumptions = ["text = whole newline-terminated lines", "writes accepted while a render delay is pending are outside the property"]
+    frames_check(ctx, {"CT_IO", "OUT_TEXT", "OUT_UNEXPECTED", "CT_FRAME"}, M.c13_monitor, 300, 6000, CONT_DEPS | {"Props/C13.v"},
+                 nontrivial=lambda case, frames: any(" RET_WRITE " in l for l in case["trace"]))
+
+
+@check
+def check_C04(ctx):
+    ctx.cov["rule"] = FRAME_RULE
+    ctx.assumptions = ["non-terminal output: the library assumes height = width; the terminal path is exercised by the pty sweep"]
+    frames_check(ctx, {"OUT_CUU", "CT_FRAME", "OUT_ROWS", "OUT_UNEXPECTED", "CT_DELAYEND", "OUT_TEXT"}, M.c04_monitor, 200, 6000,
+                 CONT_DEPS | {"Props/C04.v", "Term.v", "TermProofs.v"})
+
+
+def c17_directed(ctx):
+    pass
